@@ -1565,3 +1565,18 @@ package machine
 //@ func (m *Machine) HandlersBind(handlers any, opts ...BindOpts) (id string, err error)
 //@   trusted handler registry (reflection-built bindings); only called here
 //@   assigns *
+
+// PoolFork: total with zero pools (no counter / no limit registered for the
+// handler): the fork is regular and reported.
+//@ func (e *Event) IsValid() (r bool)
+//@   trusted reads the running transition through atomics; only used as a gate
+//@   pure
+//@ func (m *Machine) Go(ctx context.Context, fn func())
+//@   trusted forks a goroutine (outside the subset); assigns nothing of the caller's view
+//@ func (m *Machine) PoolFork(ctx context.Context, e *Event, fn func()) (r bool)
+//@   props C20
+//@   requires nn: e != nil && !isnil(m.pools) && !isnil(m.poolLimits)
+//@   requires locks: unlocked(m.poolMx)
+//@   requires pools: forall k string :: has(m.pools, k) ==> m.pools[k] != nil
+//@   assigns *
+//@   ensures nopool: e.IsValid() && !(old(m.poolGlobal + 1 >= m.poolGlobalLimit) && old(m.poolGlobalLimit) > 0) && !(old(has(m.pools, e.Name)) && old(has(m.poolLimits, e.Name))) ==> r
